@@ -44,10 +44,16 @@ class Pins:
     def map_names(self, mapping, resource):
         mapped_names = []
         for name in self.names:
+            seen = set()
             while ":" in name:
                 if name not in mapping:
                     raise NameError("Resource {!r} refers to nonexistent connector pin {}"
                                     .format(resource, name))
+                if name in seen:
+                    raise NameError("Resource {!r} refers to connector pin {} that is mapped "
+                                    "to itself through a cycle of connectors"
+                                    .format(resource, name))
+                seen.add(name)
                 name = mapping[name]
             mapped_names.append(name)
         return mapped_names
